@@ -43,7 +43,7 @@ NoM == [q |-> FALSE, c |-> FALSE, lag |-> 0, arr |-> None]
 G0 == [t |-> 0,
        bm |-> [b \in Bats |-> NoM], im |-> [b \in Bats |-> NoM],
        real |-> [b \in Bats |-> "NW"],
-       k |-> [b \in Bats |-> [act |-> FALSE, n |-> 0, t0 |-> 0]],
+       k |-> [b \in Bats |-> [act |-> FALSE, n |-> 0, t0 |-> 0, rs |-> "init"]],   \* rs: why the count was last reset
        hq |-> [b \in Bats |-> FALSE]]
 
 GMsg(kind, t) == [q |-> Qualifies(kind), c |-> ContentOk(kind), lag |-> Lag(kind), arr |-> t]
@@ -64,11 +64,17 @@ StepG(g, x) ==
                        x.sent[b][j] = "WK" /\ (IF j = 1 THEN g.real[b] ELSE x.sent[b][j - 1]) = "NW"
         AfterRes(b) ==
             LET f == IF x.ev = "res" THEN x.f[b] ELSE "none"  kk == g.k[b] IN
-            IF f = "ok" THEN [kk EXCEPT !.act = FALSE, !.n = 0]
+            \* "resets on success": EVERY success resets the count, whether it arrives during the block
+            \* ("okBlocked"), after it expired (status still UNCERTAIN "okExpiredUN" / WORKING again "okExpiredWK")
+            \* or with no block at all ("okIdle")
+            IF f = "ok" THEN [kk EXCEPT !.act = FALSE, !.n = 0,
+                                        !.rs = IF ~kk.act THEN (IF kk.rs = "init" THEN "init" ELSE "okIdle")
+                                               ELSE IF BlockedAt(kk, t1) THEN "okBlocked"
+                                               ELSE IF g.real[b] = "WK" THEN "okExpiredWK" ELSE "okExpiredUN"]
             ELSE IF f = "fail" /\ g.real[b] # "NW" /\ ~BlockedAt(kk, t1)
-                 THEN [act |-> TRUE, n |-> IF kk.act THEN Min2(kk.n + 1, NfCap) ELSE 1, t0 |-> t1]
+                 THEN [act |-> TRUE, n |-> IF kk.act THEN Min2(kk.n + 1, NfCap) ELSE 1, t0 |-> t1, rs |-> "none"]
                  ELSE kk
-        k1 == [b \in Bats |-> IF Recov(b) THEN [AfterRes(b) EXCEPT !.act = FALSE, !.n = 0] ELSE AfterRes(b)]
+        k1 == [b \in Bats |-> IF Recov(b) THEN [AfterRes(b) EXCEPT !.act = FALSE, !.n = 0, !.rs = "recovery"] ELSE AfterRes(b)]
         hq1 == [b \in Bats |-> IF x.idle THEN P(bm1[b], t1) /\ P(im1[b], t1) ELSE g.hq[b]]
     IN [t |-> t1, bm |-> bm1, im |-> im1, real |-> real1, k |-> k1, hq |-> hq1]
 
@@ -144,6 +150,10 @@ Stats ==
                                                            /\ GS[i].k[b].act /\ ~BlockedAt(GS[i].k[b], GS[i].t)}),
         maxConsecutive |-> LET S == {GS[i].k[b].n : i \in 1..NL, b \in Bats} \cup {0} IN CHOOSE m \in S : \A z \in S : z <= m,
         resets |-> N({<<i, b>> \in (1..NL) \X Bats : Pre(i).k[b].act /\ ~GS[i].k[b].act}),
+        \* a new block (count 1) that follows a success which arrived while the battery was not blocked
+        successUnblockedThenFail |-> N({<<i, b>> \in (1..NL) \X Bats : Pre(i).k[b].rs \in {"okIdle", "okExpiredUN", "okExpiredWK"} /\ GS[i].k[b].rs = "none"}),
+        successAfterExpiryThenFail |-> N({<<i, b>> \in (1..NL) \X Bats : Pre(i).k[b].rs = "okExpiredWK" /\ GS[i].k[b].rs = "none"}),
+        successWhileBlockedThenFail |-> N({<<i, b>> \in (1..NL) \X Bats : Pre(i).k[b].rs = "okBlocked" /\ GS[i].k[b].rs = "none"}),
         fallbackUsed |-> N({<<i, j>> \in Q \X (1..8) : Tr.lines[i].haspool /\ j <= Len(Tr.lines[i].gw)
                               /\ LET S == ToSet(Tr.lines[i].gw[j].s) IN
                                  {b \in S : GS[i].real[b] = "WK"} = {} /\ {b \in S : GS[i].real[b] = "UN"} # {}}),
